@@ -67,6 +67,16 @@ CHECKS = {
    text="Round-trip defects are selected by discrete features (face count modulo a batch size, index width, a skipped empty geometry shifting mesh indices, colour kind, nested instancing): the family contains one geometry per feature and the complete product with 11 mesh formats and their options, 8 scene formats, point-cloud and path formats is executed; triangles must come back in order with coordinates equal to float32(source) / bit exact / half a unit of the written digits, colours where the format stores them, instance placement by world-space triangle multiset, and the exported object must be unchanged.",
    note="Known findings: 3MF cannot represent a node with both geometry and children, and loses everything when the scene holds an empty mesh. ASCII PLY does not store face colours (by design, not demanded). DXF/SVG only for planar paths.",
    design="3.C08"),
+ "C12": dict(level="exploration", engine="E2",
+   technique="complete grids of rays and query points x meshes x scale variants x both engines against brute-force evaluation over all triangles, judged only in general position by a fixed margin",
+   text="Acceleration defects (candidate culling, forward filtering, first-hit selection, multi-hit stepping, de-duplication across rays, tie resolution) show up as a disagreement with testing every triangle; the grids contain origins inside and outside, collinear origins with equal directions, axis-aligned / diagonal / oblique directions, non-convex and thin meshes, and scales 1e-2 .. 1e2 plus a far translation. Each case is classified by the oracle (Moeller-Trumbore on all triangles) as in general position or not with the margin the property names; only in-domain cases are judged (counts in the evidence).",
+   note="Embree is float32: locations compared at 2e-5 of the coordinate magnitude; proximity values allow the library's absolute merge tolerance (1e-7).",
+   design="3.C12"),
+ "C14": dict(level="exploration", engine="E2",
+   technique="exhaustive enumeration of every splitting x entity permutation x direction assignment of lattice drawings up to an entity bound, exact Fraction region oracle; short transform / export histories with a differential oracle",
+   text="Region reconstruction is graph traversal with in-place direction flips: its failures are orderings of entities. For 7 polygonal drawings every cut set of every loop, every permutation and every direction assignment (<=4 entities quick, <=5 thorough: 5.5 M variants) is built and compared with exact closed-path count, shell/hole nesting, area and length; arc drawings are checked for invariance over all orders/directions; (reads)? -> similarity transform -> reads must follow the scaling law, equal a freshly built path and not depend on what was read before; DXF, SVG and dict re-imports must preserve the regions.",
+   note="Exactness only for polygonal input (as stated); arcs: invariance and scaling law.",
+   design="3.C14"),
 }
 
 NA = {}
